@@ -376,10 +376,25 @@ def r01e(model: Model, rr: RuleResult):
     else:
         rr.bad(pfi, pfi.node, "solid fill does not take the shape's fill and opacity", construct="_paint_glyph: solid fill")
     pg = [x for x in calls_in(pfi0) if norm(x.func) == "PaintGlyph"]
-    if pg and norm(kwarg(pg[0], "glyph")) == "shape.as_path().d" and norm(kwarg(pg[0], "paint")) == "glyph_paint":
+    # the fill handed to PaintGlyph is the paint computed for this shape: the value of the gradient-parser / solid-fill computation (here or in the helper that holds it)
+    fill_ok = False
+    if pg and kwarg(pg[0], "paint") is not None:
+        pv_ = kwarg(pg[0], "paint")
+        if norm(pv_) == "glyph_paint":
+            fill_ok = True
+        elif isinstance(pv_, ast.Name):
+            c0_ = cfg_of(pfi0)
+            ds_ = c0_.reaching(c0_.node_for(pg[0]), pv_.id)
+            fill_ok = bool(ds_) and all(isinstance(d_.value, ast.Call) and model.resolve_call(pfi0, d_.value) is pfi and pfi is not pfi0 for d_ in ds_) or \
+                (bool(ds_) and all(d_.value is not None and ("_GRADIENT_INFO" in norm(d_.value) or "PaintSolid" in norm(d_.value)) for d_ in ds_))
+        elif isinstance(pv_, ast.Call) and model.resolve_call(pfi0, pv_) is pfi and pfi is not pfi0:
+            fill_ok = True
+    if pg and norm(kwarg(pg[0], "glyph")) == "shape.as_path().d" and fill_ok:
         rr.ok("_paint_glyph: PaintGlyph(glyph=the shape's own path, paint=its own fill)")
+    elif pg and kwarg(pg[0], "glyph") is not None and norm(kwarg(pg[0], "glyph")) != "shape.as_path().d" and "as_path" in norm(kwarg(pg[0], "glyph")):
+        rr.bad(pfi0, pfi0.node, "PaintGlyph is not built from the shape's own outline and fill", construct="_paint_glyph: PaintGlyph")
     else:
-        rr.bad(pfi, pfi.node, "PaintGlyph is not built from the shape's own outline and fill", construct="_paint_glyph: PaintGlyph")
+        rr.bad_shape(pfi0, pfi0.node, "PaintGlyph is not built from the shape's own outline and fill", construct="_paint_glyph: PaintGlyph")
     for fn in ("_parse_linear_gradient", "_parse_radial_gradient"):
         g = model.func("color_glyph", fn)
         cg = find_calls(g, "_common_gradient_parts")
